@@ -57,17 +57,26 @@ def run(tier, seed, replay):
     # ------------------------------------------------------------------ T3: tableaux and their obligations
     tabs = tt.tableaux()
     core.write_if_changed(os.path.join(core.LEAN, "Qv", "Gen", "Tableaux.lean"), tt.render(tabs))
-    ok_gen, log = core.lake_build(["Qv.Gen.Tableaux"])
-    nobl = sum(2 + (1 if t["e"] else 0) for t in tabs.values())
+    omods, nord = tt.render_order(tabs)
+    for m, text in omods.items():
+        core.write_if_changed(os.path.join(core.LEAN, *m.split(".")) + ".lean", text)
+    ok_gen, log = core.lake_build(["Qv.Gen.Tableaux"] + list(omods))
+    nobl = sum(2 + (1 if t["e"] else 0) for t in tabs.values()) + nord
     rep.obligations += nobl
     if ok_gen:
         rep.discharged += nobl
+        gnames = [f"Qv.Gen.Tableaux.{k}_order_conditions" for k in tabs]
+        gax, _ = core.axiom_audit(["Qv.Gen.TreeOrderAll"], gnames)
+        rep.axioms.update(gax)
+        for n_, a_ in gax.items():
+            if a_ is None or not set(a_) <= core.ALLOWED_AXIOMS:
+                rep.broken.append({"kind": "axiom", "name": n_, "axioms": a_})
     else:
-        failed = sorted(set(__import__("re").findall(r"error: \S*Tableaux.lean:(\d+)", log)))
+        failed = sorted(set(__import__("re").findall(r"error: \S*(?:Tableaux|TreeOrder\w*).lean:(\d+)", log)))
         rep.broken.append({"kind": "generated obligations", "module": "Qv.Gen.Tableaux", "log_tail": log[-600:], "lines": failed})
     rep.notes["tableaux"] = {k: {"order": t["order"], "stages": len(t["b"])} for k, t in tabs.items()}
     if tier == "thorough":
-        core.leanchecker(rep, ["Qv.Props.C10"] + (["Qv.Gen.Tableaux"] if ok_gen else []))
+        core.leanchecker(rep, ["Qv.Props.C10"] + (["Qv.Gen.Tableaux", "Qv.Gen.TreeOrderAll"] if ok_gen else []))
     # ------------------------------------------------------------------ correspondence: single steps
     lines, expect = [], []
     for name, t in tabs.items():
